@@ -13,6 +13,7 @@ import (
 	"math"
 	"math/rand"
 	"strings"
+	"time"
 
 	"github.com/reusee/sb"
 )
@@ -409,6 +410,8 @@ func isEndKind(k sb.Kind) bool {
 // ---------------------------------------------------------------------------
 // the hash / tree / refs families
 // ---------------------------------------------------------------------------
+
+var derefLeaked int
 
 func famHash(dir string, seed int64, tier string) {
 	thorough := tier == "thorough"
@@ -884,38 +887,47 @@ func refsFor(rep *Report, w *CaseWriter, r *rand.Rand, ts []sb.Token, v *gval, f
 			}
 		}
 		var out []sb.Token
-		eD := guard(func() error {
-			s := sb.Deref(tokensFrom(sub), func(h []byte) (sb.Stream, error) {
-				if fail[string(h)] {
-					if si%8 == 7 {
-						return nil, fmt.Errorf("%w (%w)", errInjected, sb.NotFound) // a resolver backed by FindByHash
+		if derefLeaked > 0 {
+			continue // a Deref run did not return (reported below as deref-diverges): do not start more of them
+		}
+		eD := withWatchdog(6*time.Second, &derefLeaked, func() error {
+			return guard(func() error {
+				s := sb.Deref(tokensFrom(sub), func(h []byte) (sb.Stream, error) {
+					if fail[string(h)] {
+						if si%8 == 7 {
+							return nil, fmt.Errorf("%w (%w)", errInjected, sb.NotFound) // a resolver backed by FindByHash
+						}
+						return nil, errInjected
 					}
-					return nil, errInjected
-				}
-				if decl[string(h)] {
+					if decl[string(h)] {
+						return nil, nil
+					}
+					if n, ok := byHash[string(h)]; ok {
+						return n.Iter(), nil
+					}
 					return nil, nil
+				})
+				for {
+					var t sb.Token
+					if err := s.Next(&t); err != nil {
+						return err
+					}
+					if t.Invalid() {
+						return nil
+					}
+					out = append(out, t)
+					if len(out) > 100000 {
+						return errDiverge
+					}
 				}
-				if n, ok := byHash[string(h)]; ok {
-					return n.Iter(), nil
-				}
-				return nil, nil
 			})
-			for {
-				var t sb.Token
-				if err := s.Next(&t); err != nil {
-					return err
-				}
-				if t.Invalid() {
-					return nil
-				}
-				out = append(out, t)
-				if len(out) > 100000 {
-					return errDiverge
-				}
-			}
 		})
 		rep.Evaluations++
 		rdesc := fmt.Sprintf("sel=%v decline=%v fail=%v %s", selIdx, declIdx, failIdx, desc)
+		if classOf(eD) == "EDiverge" {
+			rep.violate("C10", "deref-diverges", "Deref did not finish within 6 s / 100000 tokens on a finite stream with a terminating resolver", rdesc)
+			continue
+		}
 		// C10 oracles
 		if eS != nil {
 			rep.violate("C10", "substitute-error", fmt.Sprintf("IterFunc failed: %v", eS), rdesc)
